@@ -10,6 +10,8 @@
 //
 // (a) and (b) are also done inside block commits, at the points where another thread of the node can take TxMutex
 // (world.go chainEvent), and after a restart on a damaged mempool.dmp (crashload.go).
+// families.go: blocks undone while the sorted list is live (`undo slow`), and pools whose records have aged to both
+// sides of the expiry limit before they are saved / reloaded / mined from / finally expired.
 package main
 
 import (
@@ -685,8 +687,9 @@ func (w *World) reorgStepwise(depth int, cands []*txInfo) bool {
 	if depth > len(w.blocks) {
 		depth = len(w.blocks)
 	}
+	slow := w.g.Chance(1, 3) // the operator undoes the blocks with `undo slow`
 	for i := 0; i < depth; i++ {
-		if !w.undoBare() {
+		if !w.undoLast(slow) {
 			return false
 		}
 	}
@@ -738,6 +741,9 @@ func scRandomSteps(w *World, steps int, withBig bool, final bool) {
 			free := w.freeCoins(false)
 			conf := w.freeCoins(true)
 			pool := w.pooled()
+			if len(pool) > 0 && w.g.Chance(1, 14) { // time passes: the records stay, older, until the hourly expiry comes by
+				w.ageRandom()
+			}
 			x := w.g.Intn(100)
 			switch {
 			case x < 38 && len(free) > 0: // ordinary tx (chains and diamonds arise from pooled outputs)
@@ -896,7 +902,7 @@ func scRandomSteps(w *World, steps int, withBig bool, final bool) {
 				}
 				switch w.g.Intn(4) {
 				case 0:
-					if !w.undoBare() { // the text-UI `undo`: the pool must be in order on the lower tip as well
+					if !w.undoLast(w.g.Bool()) { // the text-UI `undo` / `undo slow`: the pool must be in order on the lower tip as well
 						return
 					}
 				case 1:
@@ -917,6 +923,9 @@ func scRandomSteps(w *World, steps int, withBig bool, final bool) {
 				}
 				w.tickExpire(old)
 			case x < 98:
+				if w.g.Chance(1, 2) { // ... after a while: part of the pool (or all of it) has not been announced for days
+					w.ageRandom()
+				}
 				if w.g.Chance(2, 5) { // the node restarts on a pool file that is not the complete file of its tip
 					kinds := []string{"cut", "cut", "cut", "cut", "marker", "stale", "version", "tip", "missing"}
 					w.crashLoad(kinds[w.g.Intn(len(kinds))])
@@ -987,6 +996,9 @@ func scenarios(r *vlib.Run) []scenario {
 		{"corpus:dirty-list", scDirtyList, false},
 		{"corpus:reorg-stepwise", scReorgStepwise, false},
 		{"corpus:crash-load", scCrashLoad, false},
+		{"corpus:undo-sorting-on", scUndoFamilies, false},
+		{"corpus:undo-sorting-on-notfullrbf", scUndoFamilies, true},
+		{"corpus:aged-reload", scAgedReload, false},
 	}
 	l = append(l,
 		// 43 arrivals directly below the head of a freshly built list: the rank gap there goes 2^42.4 … 3, 2, 1
@@ -1058,6 +1070,8 @@ func main() {
 		"Go map-iteration order (batch of REPLACED records in the reject ring; ties of sort.Slice) is an input: the model adopts the observed order through ringorder / setorder, which are proved to preserve the invariants (resync_step_inv)",
 		"a single replacement whose batch of REPLACED records alone overruns the reject ring (a root with >= ringCap-1 descendants enumerated in Go map order): which records survive is map-order dependent; the pool side and the property predicate are still judged there, then the scenario ends (hit gen:replaced-batch-overruns-reject-ring)",
 		"several serializations of one txid (witness-malleated twins) are outside the theorems' id_fun: the model is told the serialization in use before every operation and every divergence is reported, the property predicate is judged on the real pool",
+		"wall-clock time: the model has no clock; the harness sets the Lastseen of pooled records itself (ages to both sides of TXPool.ExpireInDays = 14 days, never within 10 minutes of the limit), keeps its own ledger of them (a re-announcement or a new pool residency makes a record fresh) and hands the model the ledger's expired keys at every expiry tick; records it has not aged were seen during the run (seconds ago)",
+		"a block is undone either inside BlockCommitInProgress(true)…(false) (client/main.go, text-UI `undo`) or with sorting enabled (text-UI `undo slow`: UndoLastBlock, then BlockCommitInProgress(false)); blocks are always CONNECTED inside the bracket (no caller does otherwise)",
 	}
 	base := r.Rng
 	only := ""
@@ -1099,5 +1113,5 @@ func finish(r *vlib.Run) {
 	os.Stdout = realOut
 	syscall.Dup2(int(realErr.Fd()), 2)
 	r.Finish("one case = the real pool state after one operation of a history (submit net/trusted/local, block, reorg, expiry tick, eviction tick, save+reload, restart on a damaged pool file) or inside a block commit right after the chain has reported one block to the pool; distinct = different (pool, rejected) dumps; each compared with the Lean model and checked against the property predicate incl. a block template validated by the node",
-		"Real client/txpool driven in-process on a chainkit chain with the client's own wiring; after every operation the full observable state (TransactionsToSend with Fee/Volume/MemInputs/Final/Local, SpentOutputs, reject ring, WaitingForInputs, RejectedSpentOutputs, sorted list, totals) is compared with Model/Mempool.lean, gocoin's FeePackages are validated by the model (pkgOK) and its merge of the sorted list with them is compared element by element with GetSortedMempoolRBF(), and C12's predicate is evaluated directly on the real pool: no double spend, every input confirmed-unspent or pooled, SpentOutputs exact, nothing pooled confirmed, Fee = in - out, sizes from the raw bytes, MempoolCheck(), GetSortedMempoolRBF() and GetSortedMempool() parents-first permutations of the pool, block built from the former accepted by CheckBlock + ProcessBlockTransactions with scripts verified. The same is done INSIDE block commits (after each BlockMined / BlockUndone callback of a connect, an undo and every step of a reorganisation, while SortingDisabled is set: the listing another thread would get there), and MempoolLoad is run on damaged variants of every file MempoolSave writes (cut at any byte, marker / version / tip changed, stale, missing): each must be refused and leave the pool as InitMempool() makes it; the history continues from there (model: loadRefused).")
+		"Real client/txpool driven in-process on a chainkit chain with the client's own wiring; after every operation the full observable state (TransactionsToSend with Fee/Volume/MemInputs/Final/Local, SpentOutputs, reject ring, WaitingForInputs, RejectedSpentOutputs, sorted list, totals) is compared with Model/Mempool.lean, gocoin's FeePackages are validated by the model (pkgOK) and its merge of the sorted list with them is compared element by element with GetSortedMempoolRBF(), and C12's predicate is evaluated directly on the real pool: no double spend, every input confirmed-unspent or pooled, SpentOutputs exact, nothing pooled confirmed, Fee = in - out, sizes from the raw bytes, MempoolCheck(), GetSortedMempoolRBF() and GetSortedMempool() parents-first permutations of the pool, block built from the former accepted by CheckBlock + ProcessBlockTransactions with scripts verified. The same is done INSIDE block commits (after each BlockMined / BlockUndone callback of a connect, an undo and every step of a reorganisation, while SortingDisabled is set: the listing another thread would get there), and MempoolLoad is run on damaged variants of every file MempoolSave writes (cut at any byte, marker / version / tip changed, stale, missing): each must be refused and leave the pool as InitMempool() makes it; the history continues from there (model: loadRefused). Blocks are undone inside the commit bracket and - text-UI `undo slow` - with the sorted list live (put-back transactions inserted at once, children re-flagged by unmined() on the live list). Pooled records are aged by the harness to both sides of the expiry limit (its own time ledger) and must come through every other operation, save+reload and restarts included, until the expiry tick removes exactly the expired ones with their descendants.")
 }
